@@ -59,8 +59,18 @@ def doc_events(b, sch, rd, toks, rng, slices, total, n_pos, n_pairs):
             if c11.inside_surrogate(toks, p):
                 continue
             try:
-                if rd.resolve(p).parent.is_textblock:
+                rp = rd.resolve(p)
+                if rp.parent.is_textblock:
                     opdrive.ev_can_split(b, rd, di, p, 1, total, [NodeTypeWithAttrs(rng.choice(tbs))])
+                # deeper splits with one type per level, outermost first - the list an editor's "split list item" passes
+                # ([list_item, paragraph]): the nodes' own types, and the same with another textblock type innermost
+                for depth in (2, 3):
+                    if rp.depth >= depth:
+                        own = [NodeTypeWithAttrs(rp.node(rp.depth - depth + 1 + j).type, dict(rp.node(rp.depth - depth + 1 + j).attrs) or None)
+                               for j in range(depth)]
+                        opdrive.ev_can_split(b, rd, di, p, depth, total, own)
+                        if rp.parent.is_textblock:
+                            opdrive.ev_can_split(b, rd, di, p, depth, total, own[:-1] + [NodeTypeWithAttrs(rng.choice(tbs))])
             except Exception:  # noqa: BLE001
                 pass
 
